@@ -171,7 +171,10 @@ type errorExtra struct {
 // When debug is false, stack traces and file paths are omitted to avoid leaking
 // implementation details to clients.
 func buildErrorExtra(err error, debug bool) string {
-	errType := fmt.Sprintf("%T", err)
+	// Anything that is not one of the typed errors below surfaces as a
+	// RuntimeError (docs/guide/errors.md). A Go type name such as
+	// "*errors.errorString" must never reach the cross-language wire.
+	errType := "RuntimeError"
 
 	// Prefer the wire-stable class name for typed errors.
 	switch e := err.(type) {
